@@ -217,7 +217,8 @@ func idKind(id int) int { return (id / 4) % 9 }
 // only make sense against a recorder.
 var realServerMode bool
 
-func idCode(id int) int { return 200 + (id*37)%400 }
+// idCode covers every code net/http lets a handler set after the 1xx range: 200..999, not only the registered classes.
+func idCode(id int) int { return 200 + (id*37)%800 }
 
 func expectedCode(id int) int {
 	switch k := idKind(id); {
